@@ -300,6 +300,136 @@ theorem C18_sites_gated :
         r.conds.contains "!(t.dhtMode <= config.DhtNone)" = true) ∧
     (∀ r ∈ Gen.privacyGates, r.site = "infoHashes" → r.args = "false") := by decide
 
+/-! ## histories: any interleaving of steps with the deliveries of what they decided -/
+
+theorem history_permitted_aux (g : Ports) (fx : Fixed) (hs : List HStep) :
+    ∀ (h : HSt), (∀ p ∈ h.pending, permitted fx p.1 p.2) →
+      ∀ e ∈ history expectedGates g fx h hs, permitted fx e.decided e.obs := by
+  induction hs with
+  | nil => intro h _ e he; simp [history] at he
+  | cons s ss ih =>
+    intro h hp e he
+    simp only [history, List.mem_append] at he
+    cases s with
+    | act st =>
+      rcases he with he | he
+      · simp only [hstep, List.mem_map, List.mem_filter] at he
+        obtain ⟨x, ⟨hx, _⟩, rfl⟩ := he
+        exact step_permitted g fx h.conf st x hx
+      · refine ih _ ?_ e he
+        intro p hpm
+        simp only [hstep, List.mem_append, List.mem_filter] at hpm
+        rcases hpm with hpm | ⟨hpm, _⟩
+        · exact hp p hpm
+        · exact step_permitted g fx h.conf st p hpm
+    | deliver i =>
+      simp only [hstep] at he
+      split at he
+      · rename_i p hpi
+        have hmem : p ∈ h.pending := List.mem_of_getElem? hpi
+        rcases he with he | he
+        · simp only [List.mem_singleton] at he
+          subst he
+          exact hp p hmem
+        · refine ih _ ?_ e he
+          intro q hq
+          exact hp q (List.mem_of_mem_eraseIdx hq)
+      · rcases he with he | he
+        · simp at he
+        · exact ih h hp e he
+
+/-- **Histories.**  For any initial settings (global defaults), proxy state and ports, and
+    any history — steps (torrent addition, TorAnnounce, slow ticks, scheduler passes, peer
+    starts, incoming handshakes, SetConf with any values) interleaved in any way with the
+    deliveries of the tracker announces and web-seed fetches those steps decided on — every
+    outbound action was permitted by the settings in force WHEN IT WAS DECIDED.
+    Interval covered: decision time (the evaluation of the gate that dominates the `go`
+    statement / the call).  The interval between decision and arrival is not covered by this
+    theorem (see `C18_arrival_window_open`); the harness covers it by observing ARRIVAL at the
+    fake trackers / the web-seed server and requiring every arrival to fall into the step that
+    decided on it (seeded C18-6, which parked requests inside the HTTP transport, is reported
+    there, not here). -/
+theorem C18_history_permitted (g : Ports) (fx : Fixed) (c : Conf) (hs : List HStep) :
+    ∀ e ∈ history Gen.privacyGates g fx ⟨c, []⟩ hs, permitted fx e.decided e.obs := by
+  rw [C18_gates_table]
+  exact history_permitted_aux g fx hs ⟨c, []⟩ (by simp)
+
+theorem permitted_fixed (fx : Fixed) (c : Conf) (o : Obs) (h : permitted fx c o) :
+    permittedFixed fx o := by
+  cases o <;> simp only [permitted, permittedFixed] at h ⊢
+  · intro hp; exact (h.2 hp).2
+  · exact h.2
+  · exact h.2
+  · exact h
+  · exact h
+  · exact h
+  · exact h
+
+/-- The proxy guarantees do not depend on the changeable settings, so they hold for every
+    action of every history at ARRIVAL time as well, however long the window: a proxied
+    torrent never reveals a port to the DHT or a tracker, never sends a Port message or a
+    version/port/IPv6 in an extended handshake, is never offered to or accepted from an
+    incoming handshake. -/
+theorem C18_history_proxy_always (g : Ports) (fx : Fixed) (c : Conf) (hs : List HStep) :
+    ∀ e ∈ history Gen.privacyGates g fx ⟨c, []⟩ hs, permittedFixed fx e.obs :=
+  fun e he => permitted_fixed fx e.decided e.obs (C18_history_permitted g fx c hs e he)
+
+theorem history_sync_aux (tbl : List Gate) (g : Ports) (fx : Fixed) (hs : List HStep) :
+    ∀ (h : HSt), (∀ p ∈ h.pending, p.2.async = true) →
+      ∀ e ∈ history tbl g fx h hs, e.obs.async = false → e.arrived = e.decided := by
+  induction hs with
+  | nil => intro h _ e he; simp [history] at he
+  | cons s ss ih =>
+    intro h hp e he hasync
+    simp only [history, List.mem_append] at he
+    cases s with
+    | act st =>
+      rcases he with he | he
+      · simp only [hstep, List.mem_map] at he
+        obtain ⟨x, _, rfl⟩ := he
+        rfl
+      · refine ih _ ?_ e he hasync
+        intro p hpm
+        simp only [hstep, List.mem_append, List.mem_filter] at hpm
+        rcases hpm with hpm | ⟨_, hpm⟩
+        · exact hp p hpm
+        · exact hpm
+    | deliver i =>
+      simp only [hstep] at he
+      split at he
+      · rename_i p hpi
+        have hmem : p ∈ h.pending := List.mem_of_getElem? hpi
+        rcases he with he | he
+        · simp only [List.mem_singleton] at he
+          subst he
+          have := hp p hmem
+          simp [this] at hasync
+        · exact ih _ (fun q hq => hp q (List.mem_of_mem_eraseIdx hq)) e he hasync
+      · rcases he with he | he
+        · simp at he
+        · exact ih h hp e he hasync
+
+/-- DHT announces and handshake messages are synchronous with their decision (the DHT call is
+    made by the loop itself, the handshake fields are fixed when the message is built): for
+    them decision time = arrival time, so `C18_history_permitted` covers arrival too.  Only
+    tracker announces and web-seed fetches have a window. -/
+theorem C18_history_sync_at_arrival (g : Ports) (fx : Fixed) (c : Conf) (hs : List HStep) :
+    ∀ e ∈ history Gen.privacyGates g fx ⟨c, []⟩ hs, e.obs.async = false →
+      permitted fx e.arrived e.obs := by
+  intro e he ha
+  rw [history_sync_aux Gen.privacyGates g fx hs ⟨c, []⟩ (by simp) e he ha]
+  exact C18_history_permitted g fx c hs e he
+
+/-- The window is really open in the model (and in the code: an announce or fetch in flight
+    when its switch is turned off runs to completion): a fetch decided while web seeds were
+    enabled can arrive after they were disabled.  This is why "only while enabled" is proved at
+    decision time and observed at arrival time by the harness. -/
+theorem C18_arrival_window_open :
+    ∃ e ∈ history Gen.privacyGates ⟨6883, 6882, 6881⟩ ⟨false, true⟩ ⟨⟨false, true, .none⟩, []⟩
+        [.act (.reqTick 1), .act (.setConf ⟨false, false, .none⟩ 0), .deliver 0],
+      e.obs = .fetch ∧ e.decided.useWebseeds = true ∧ e.arrived.useWebseeds = false := by
+  decide
+
 /-! ## non-vacuity: the actions do happen when permitted -/
 example : trace Gen.privacyGates ⟨6883, 6882, 6881⟩ ⟨false, true⟩ ⟨true, true, .normal⟩
     [.add, .slowTick false true, .reqTick 1, .peerStart true true true, .incoming]
@@ -311,5 +441,12 @@ example : trace Gen.privacyGates ⟨6883, 6882, 6881⟩ ⟨true, true⟩ ⟨fals
     [.add, .setConf ⟨true, false, .normal⟩ 1, .slowTick false true, .peerStart true true true, .incoming]
     = [(⟨true, false, .normal⟩, .dht true 0), (⟨true, false, .normal⟩, .dht false 0),
        (⟨true, false, .normal⟩, .tracker 0 0), (⟨true, false, .normal⟩, .ext0 false 0 false)] := by decide
+
+-- a history with deliveries out of order and a SetConf in between: all events, with both tags
+example : history Gen.privacyGates ⟨6883, 6882, 6881⟩ ⟨true, true⟩ ⟨⟨true, true, .normal⟩, []⟩
+    [.act (.slowTick false true), .act (.reqTick 1), .act (.setConf ⟨false, false, .none⟩ 0),
+     .deliver 1, .deliver 0, .act (.slowTick true true)]
+    = [⟨⟨true, true, .normal⟩, ⟨false, false, .none⟩, .fetch⟩,
+       ⟨⟨true, true, .normal⟩, ⟨false, false, .none⟩, .tracker 0 0⟩] := by decide
 
 end Storrent.Privacy
